@@ -56,8 +56,8 @@ class Env:
     def ensure(self, clause, cond, props=(), detail=None):
         raise NotImplementedError
 
-    def fail(self, clause, props=(), detail=None, internal=None):
-        return self.ensure(clause, False, props, detail, internal=internal)
+    def fail(self, clause, props=(), detail=None, internal=None, split=None):
+        return self.ensure(clause, False, props, detail, internal=internal, split=split)
 
     def stop(self):
         raise StopPath()
@@ -148,7 +148,9 @@ class SymEnv(Env):
             out[k] = v.as_long()
         return out
 
-    def ensure(self, clause, cond, props=(), detail=None, internal=None):
+    def ensure(self, clause, cond, props=(), detail=None, internal=None, split=None):
+        """split: [(label, condition)] input classes; a refuted obligation is then reported once per class in which it can
+        fail (one counter-model each), so that failure signatures do not depend on which model the solver happens to pick"""
         t0 = time.time()
         self._internal = internal
         if isinstance(cond, SymBool):
@@ -188,9 +190,25 @@ class SymEnv(Env):
                 self.outcomes.append(Outcome(clause, props, "discharged", ms=(time.time() - t0) * 1000))
                 return True
             if r == z3.sat:
-                holes = self._model_holes(s.model())
-                self.outcomes.append(Outcome(clause, props, "failed", holes=holes, ms=(time.time() - t0) * 1000,
-                                             internal=self._internal))
+                models = [self._model_holes(s.model())]
+                if split:
+                    per = []
+                    for _lab, c in split:
+                        c = c.e if isinstance(c, SymBool) else c
+                        if c is False:
+                            continue
+                        s.push()
+                        try:
+                            if c is not True:
+                                s.add(c)
+                            if self.path.check() == z3.sat:
+                                per.append(self._model_holes(s.model()))
+                        finally:
+                            s.pop()
+                    models = per or models
+                for holes in models:
+                    self.outcomes.append(Outcome(clause, props, "failed", holes=holes, ms=(time.time() - t0) * 1000,
+                                                 internal=self._internal))
                 return False
             self.outcomes.append(Outcome(clause, props, "undecided", ms=(time.time() - t0) * 1000,
                                          detail=s.reason_unknown()))
@@ -270,7 +288,7 @@ class NativeEnv(Env):
                 out.append(p)
         return "".join(out)
 
-    def ensure(self, clause, cond, props=(), detail=None, internal=None):
+    def ensure(self, clause, cond, props=(), detail=None, internal=None, split=None):
         ok = bool(cond)
         d = None
         if not ok and detail is not None:
@@ -367,7 +385,9 @@ def explore_cell(lemma, cell, interp, timeout_ms=10000, max_paths=4000, replay=T
         if env.outcomes:
             try:
                 if (p.check() if p.light is None else p.light.check()) == z3.unsat:
-                    res.errors.append("vacuous path: the path condition is unsatisfiable (contradictory assumption in a lemma or contract)")
+                    res.errors.append("vacuous path: the path condition is unsatisfiable (contradictory assumption in a lemma or contract)"
+                                      + (" outcomes=%s prefix=%s" % ([o.clause.split("::", 1)[-1] for o in env.outcomes][:8], prefix)
+                                         if os.environ.get("VERIF_DEBUG") else ""))
             except Exception:  # noqa
                 pass
         res.paths += 1
@@ -386,7 +406,7 @@ def explore_cell(lemma, cell, interp, timeout_ms=10000, max_paths=4000, replay=T
                 f = {"clause": o.clause, "props": sorted(o.props), "holes": o.holes}
                 if replay:
                     f.update(native_replay(lemma, cell, o.holes, o.clause, props=o.props))
-                    if f["native"] == "spurious" and o.internal:
+                    if f["native"] in ("spurious", "precondition-not-met") and o.internal:
                         f["native"] = "no-native-counterpart"
                         f["signature"] = o.internal
                 res.failures.append(f)
@@ -394,15 +414,24 @@ def explore_cell(lemma, cell, interp, timeout_ms=10000, max_paths=4000, replay=T
     # concrete failing input natively among the lemma's probe inputs; a hit is a replayed violation
     needs = bool(res.undecided) or any(f.get("native") in ("spurious", "no-native-counterpart") for f in res.failures)
     if needs and replay and hasattr(lemma, "probes"):
+        seen_sigs = set()
         for holes in lemma.probes(cell):
             r = native_replay(lemma, cell, holes, None)
-            if r["native"] == "confirmed":
-                # the probe witness replaces the witness-less refutations of this cell
-                res.failures = [f for f in res.failures if f.get("native") not in ("spurious", "no-native-counterpart")] or []
-                res.failures.append({"clause": (res.undecided[0]["clause"] if res.undecided else "probe"),
-                                     "props": sorted(set(p for c in res.clauses.values() for p in c["props"])),
-                                     "holes": holes, "native": "confirmed", "signature": "probe:%s" % r["signature"],
-                                     "info": r["info"]})
+            if r["native"] != "confirmed" or r["signature"] in seen_sigs:
+                continue
+            seen_sigs.add(r["signature"])
+            # a probe witness stands in for the witness-less refutations of the SAME clause only (its signature starts with
+            # the tail of the clause that failed natively); refutations of other clauses stay reported on their own
+            def same_clause(f):
+                ct = f["clause"].split("::")[-1]
+                return str(r["signature"]).startswith(ct + ":") or str(r["signature"]) == ct
+            res.failures = [f for f in res.failures
+                            if not (f.get("native") in ("spurious", "no-native-counterpart") and same_clause(f))]
+            res.failures.append({"clause": (res.undecided[0]["clause"] if res.undecided else "probe"),
+                                 "props": sorted(set(p for c in res.clauses.values() for p in c["props"])),
+                                 "holes": holes, "native": "confirmed", "signature": "probe:%s" % r["signature"],
+                                 "info": r["info"]})
+            if len(seen_sigs) >= 4:
                 break
     res.wall_s = time.time() - t0
     return res
